@@ -258,6 +258,24 @@ def attempts(rng, lang, factory, res, count=True):
         f = attempt('dup-link', False, model, [x], [y])
         if f:
             return f
+        # ... also after calls that were refused in between (an asset of the model added again under its own id, the
+        # duplicate itself a second time)
+        model, (x, y) = fresh([rng.choice(lconc), rng.choice(rconc)])
+        if attempt('first-link', True, model, [x], [y]) is None:
+            for obj in (x, y):
+                try:
+                    model.add_asset(obj, asset_id=int(obj.id))
+                except Exception:
+                    if count:
+                        res.count('refused-call-before-the-attempt')
+            f = attempt('dup-link', False, model, [x], [y])
+            if f:
+                return (f[0] + ':after-refused-calls', f[1])
+            f = attempt('dup-link', False, model, [x], [y])
+            if f:
+                return (f[0] + ':after-refused-calls', f[1])
+        model, (x, y) = fresh([rng.choice(lconc), rng.choice(rconc)])
+        f = attempt('first-link', True, model, [x], [y])
         if (a['leftMultiplicity']['max'] is None or a['leftMultiplicity']['max'] >= 2):
             z = getattr(ns, rng.choice(lconc))(name='z')
             model.add_asset(z)
